@@ -161,7 +161,7 @@ pub fn probe_sample(json: &str) -> i32 {
 impl Prop for C13 {
     type Case = SampleCase;
     const ID: &'static str = "C13";
-    const RULE: &'static str = "case = one distribution accepted by Dist::validate (all 11 families, parameters from the corner pool admitted by validation and log-uniform ordinary values; start/max from {0, ordinary, negative, huge, infinite, NaN}) x random source = prefix of 0..=12 extreme words (all-zero, all-one, alternating, single bits, words adjacent to the f64/f32 conversion edges, random) followed by a seeded Xoshiro256** stream x consumer (Dist::sample x4, Counter::sample_value, or a one-state framework using it as timeout/duration/limit). Non-trivial: non-empty word prefix, or start/max different from 0 (clamping in play). Distinct = hash of the case.";
+    const RULE: &'static str = "case = one distribution accepted by Dist::validate (candidates: all 11 families, parameters from the corner pool admitted by validation and log-uniform ordinary values; start/max from {0, ordinary, negative, huge, infinite, NaN}; plus candidates beyond the performance bounds of validation, which the pinned tree rejects) x random source = prefix of 0..=12 extreme words (all-zero, all-one, alternating, single bits, words adjacent to the f64/f32 conversion edges, random) followed by a seeded Xoshiro256** stream x consumer (Dist::sample x4, Counter::sample_value, or a one-state framework using it as timeout/duration/limit). Non-trivial: non-empty word prefix, or start/max different from 0 (clamping in play). Distinct = hash of the case.";
 
     fn profiles(tier: Tier) -> Vec<Profile> {
         match tier {
@@ -172,10 +172,10 @@ impl Prop for C13 {
 
     fn strategy(profile: &str) -> BoxedStrategy<SampleCase> {
         match profile {
-            "wild" => (valid_dist(), extreme_words(12), any::<u64>(), 0u8..3)
+            "wild" => (candidate_dist(), extreme_words(12), any::<u64>(), 0u8..3)
                 .prop_map(|(dist, words, seed, via)| SampleCase { dist, words, seed, via, isolate: false })
                 .boxed(),
-            "fair" => (valid_dist(), any::<u64>(), 0u8..3)
+            "fair" => (candidate_dist(), any::<u64>(), 0u8..3)
                 .prop_map(|(dist, seed, via)| SampleCase { dist, words: vec![], seed, via, isolate: false })
                 .boxed(),
             "binomial" => (
@@ -217,6 +217,7 @@ impl Prop for C13 {
 
     fn check(c: &SampleCase, obs: &mut Obs) -> Result<(), Failure> {
         let d = c.dist.to_dist();
+        // validation itself runs here, under the watchdog (rand_distr constructors can loop)
         if d.validate().is_err() {
             obs.hit("rejected_by_validation");
             return Ok(());
@@ -375,7 +376,7 @@ impl Prop for C13 {
         vec![
             "Uniform", "Normal", "SkewNormal", "LogNormal", "Binomial", "Geometric", "Pareto", "Poisson", "Weibull",
             "Gamma", "Beta", "scripted_prefix", "start_or_max_nan_or_infinite", "clamped_to_max", "via_counter",
-            "via_framework", "isolated_demonstration",
+            "via_framework", "isolated_demonstration", "rejected_by_validation",
         ]
     }
 
